@@ -496,6 +496,39 @@ def updateEntriesF (fx : Fixes) (orc : Oracle) (flt : Str → Bool) : List Entry
     else updateEntriesF fx orc flt es
       (acc ++ [e.corr (if fx.keepCstFiltered && e.attrs.cst then e.output else formatSexp fx e.output)])
 
+/-! ## `strip_sexp_fields` -/
+
+/-- `s.find(pat)`: index of the first occurrence. -/
+def findSub (pat : Str) : Str → Nat → Option Nat
+  | [], i => if pat.isEmpty then some i else none
+  | c :: cs, i => if pat.isPrefixOf (c :: cs) then some i else findSub pat cs (i + 1)
+
+/-- `s.rfind(' ')`: index of the last space. -/
+def rfindSpace (s : Str) : Option Nat :=
+  (s.zipIdx.filter fun (c, _) => c == ' ').getLast?.map (·.2)
+
+def isFieldWordCh (c : Char) : Bool := c.toNat < 128 && (c.isAlphanum || c == '_')
+
+/-- The `while let Some(pos) = remaining.find(": (")` loop of `strip_sexp_fields`. -/
+def stripFieldsLoop : Nat → Str → Str → Str
+  | 0, rem, res => res ++ rem
+  | fuel + 1, rem, res =>
+    match findSub ": (".toList rem 0 with
+    | none => res ++ rem
+    | some pos =>
+      let pre := rem.take pos
+      let isField := match rfindSpace pre with
+        | some sp =>
+          let word := pre.drop (sp + 1)
+          if !word.isEmpty && word.all isFieldWordCh then some sp else none
+        | none => none
+      match isField with
+      | some sp => stripFieldsLoop fuel (rem.drop (pos + 3)) (res ++ rem.take (sp + 1) ++ ['('])
+      | none => stripFieldsLoop fuel (rem.drop (pos + 3)) (res ++ rem.take (pos + 3))
+
+/-- `strip_sexp_fields(sexp)` -/
+def stripSexpFields (s : Str) : Str := stripFieldsLoop (s.length + 1) s []
+
 /-- Does this language iteration set `has_parse_errors` (mismatch whose rendering shows an error)? -/
 def setsParseErrors (e : Entry) (a : Actual) : Bool :=
   match e.attrs.expect with
